@@ -20,7 +20,7 @@ const verif::Info verif_info = {
     "utf_validation_t overloads, view(start,length), and set()/operator=/+= from a pointer or view into the target itself (arbitrary slice, all modes). "
     "First byte 0xFE: long inputs - a well-formed or garbage pattern repeated to an exact multiple of 1 Ki..1 Mi units or a few off, last character whole "
     "or cut (over 6000 units: lean typed call layer, judged on outcome kind, size, terminator); a deterministic grid of 256 Ki..320 Ki-unit runs (up to "
-    "1 Mi in the thorough tier) is enumerated. Oracle: outcome is a buffer or ST::unicode_error, nothing else (no other exception, assertion, sanitizer "
+    "1 Mi in the thorough tier) and three expanding inputs just under the 256 Mi-unit bound (UTF-8 form over 256 MiB) are enumerated. Oracle: outcome is a buffer or ST::unicode_error, nothing else (no other exception, assertion, sanitizer "
     "report, hang); a returned buffer has size() == size of the reference transcoding for that input and mode, a NUL after the last unit, and no unit still "
     "holding the allocator's fill pattern (nothing left unwritten). When the reference says the mode must reject, only the outcome kind is judged (C02 "
     "judges acceptance). Non-trivial: malformed or truncated input of >= 2 units, or a result at/over the small-buffer limit.",
@@ -84,7 +84,7 @@ std::string run_ext(ref::Enc from, const Units &src, unsigned xsel, size_t k, si
     return convx::for_each_ext(from, src, p, judge, calls);
 }
 
-// Inputs just under the 256 Mi-unit bound of the statement whose UTF-8 form is larger than 256 MiB (thorough tier only; as a verif_case
+// Inputs just under the 256 Mi-unit bound of the statement whose UTF-8 form is larger than 256 MiB (enumerator only; as a verif_case
 // input: FD 'N' 'E' 'A' 'R' '2' '5' '6' k).  One identical expanding character; judged on outcome kind, size, terminator and sampled content.
 // Lack of memory (malloc returning null, std::bad_alloc) ends the probe without a verdict.
 std::string near_limit_probe(unsigned k, std::string *text) {
@@ -170,7 +170,8 @@ int verif_case(const uint8_t *data, size_t size, Case &c) {
     unsigned route_sel = r.u8();
     bool null_empty = r.flag();
     // trailing bytes (after the existing layout): which group of extended entry points runs, target pre-state rotation, slice for view()/aliasing sources
-    unsigned xsel = first == 0xFF ? 0 : r.u8();
+    // (directed inputs take the pre-state rotation from their content, as the enumerator does, so that enumerated failures replay)
+    unsigned xsel = first == 0xFF ? ((unsigned)convx::units_hash(src) & 0x7FFFu) << 3 : r.u8();
     size_t k = first == 0xFF ? (src.size() > 1 ? 1 : 0) : r.idx(src.size() + 1);
     size_t len = first == 0xFF ? (src.size() > 2 ? src.size() - 2 : src.size() - k) : r.idx(src.size() - k + 1);
     c.label(conv::enc_name(from));
@@ -226,7 +227,7 @@ long verif_enumerate(int shard, int nshards, int tier, verif::EnumReport &r) {
                 // extended entry points: every string of length <= 2 runs all of them; longer ones one group each (rotating), every third string
                 if (why.empty() && len <= 3) why = lean::cross_check(d.enc, u);
                 if (why.empty() && (len <= 2 || code % 3 == 0))
-                    why = run_ext(d.enc, u, (unsigned)code, len > 1 ? 1 : 0, len > 2 ? len - 2 : len - (len > 1 ? 1 : 0), false, len <= 2 ? ~0u : 1u << ((code / 3) & 7), 7u, heap, calls);
+                    why = run_ext(d.enc, u, (unsigned)convx::units_hash(u) & 0x7FFFu, len > 1 ? 1 : 0, len > 2 ? len - 2 : len - (len > 1 ? 1 : 0), false, len <= 2 ? ~0u : 1u << ((code / 3) & 7), 7u, heap, calls);
                 r.evaluations++;
                 bool malformed = false; for (const ref::Item &it : ref::decode(d.enc, u)) if (!it.ok) malformed = true;
                 if (len >= 2 && malformed) r.nontrivial++;
@@ -281,7 +282,7 @@ long verif_enumerate(int shard, int nshards, int tier, verif::EnumReport &r) {
             if (r.want_sample() && gi % 41 == 7) r.samples.push_back(desc + " [enumerated grid]");
         }
     }
-    if (tier && shard == nshards - 1) {     // thorough tier: three inputs just under the 256 Mi-unit bound whose UTF-8 form exceeds 256 MiB (one at a time)
+    if (shard == nshards - 1) {     // three inputs just under the 256 Mi-unit bound whose UTF-8 form exceeds 256 MiB (one at a time, < 0.8 GB resident)
         for (unsigned k = 0; k < 3; k++) {
             uint8_t d[9]; memcpy(d, kNearMagic, 8); d[8] = (uint8_t)k; verif::set_current(d, 9);
             std::string text; std::string why = near_limit_probe(k, &text);
@@ -291,7 +292,7 @@ long verif_enumerate(int shard, int nshards, int tier, verif::EnumReport &r) {
         }
     }
     if (shard == 0) {
-        if (tier) r.exhausted.push_back("three near-limit inputs (64 Mi+1 UTF-32 units of U+10000, 0x10000000/3+3 UTF-16 units of U+20AC, 128 Mi+1 Latin-1 bytes E9: under the 256 Mi-unit bound, UTF-8 form over 256 MiB) to UTF-8 and into ST::string");
+        r.exhausted.push_back("three near-limit inputs (64 Mi+1 UTF-32 units of U+10000, 0x10000000/3+3 UTF-16 units of U+20AC, 128 Mi+1 Latin-1 bytes E9: under the 256 Mi-unit bound, UTF-8 form over 256 MiB) to UTF-8 and into ST::string");
         r.exhausted.push_back(std::string("grid of long inputs: runs of one identical unit/character (Latin-1 E9 FF 80 and E9 41; U+00E9 U+20AC U+1F600 U+10FFFF in UTF-8/16/32; garbage units 80 C2 E0 F0 FF / D800 DC00 FFFF / D800 110000 FFFFFFFF), total ") +
                               (tier ? "4 Ki .. 1 Mi units incl. 64 Ki, 256 Ki, 320 Ki, 512 Ki, 1 Mi and one off" : "256 Ki-1, 256 Ki, 256 Ki+1, 300 Ki, 320 Ki units") + ", filler in front or behind, last character whole or cut, every conversion reading that encoding x 3 modes");
         r.exhausted.push_back(std::string("all UTF-8 strings of length <= ") + (tier ? "5" : "4") + " over the 18-byte class alphabet 00 41 7F 80 90 A0 BF C0 C2 DF E0 ED EF F0 F4 F7 F8 FF, every conversion reading UTF-8 x 3 modes");
@@ -309,4 +310,7 @@ void verif_corpus(std::vector<std::vector<uint8_t>> &out) {
     directed(ref::UTF16, {0xD800, 0x0041, 0xDC00, 0xD800});
     directed(ref::UTF32, {0x110000, 0x41, 0xD800});
     directed(ref::LATIN1, {0xE9, 0x41, 0xFF});
+    // (no seeds for the long-input mode, first byte 0xFE: long runs add no coverage and only slow a fuzzer down; rapidcheck and the enumerated grid produce them)
+    // generated inputs with each group of extended entry points selected (trailing bytes: route_sel, null flag, ext selector, slice)
+    for (uint8_t g = 0; g < 8; g++) out.push_back({(uint8_t)(g & 3), 2, 1, 12, 0, 0, 0, 0, 0, 0, 0, 0, 0, 0, 0, 0, 0, 0, 0, 0, 3, 1, g, 1, 2});
 }
